@@ -109,10 +109,14 @@ type memFile struct {
 type memStorage struct {
 	files map[string]*memFile
 	oob   int // accesses outside [0,size)
+	pad   int // padding files opened (they must never reach the disk)
 }
 
 func (s *memStorage) Open(name string, size int64) (storage.File, bool, error) {
 	f := &memFile{size: size, data: make([]byte, size), sto: s}
+	if strings.Contains(name, ".pad") {
+		s.pad++
+	}
 	s.files[name] = f
 	return f, false, nil
 }
@@ -430,6 +434,7 @@ func process(l layout, mode string, bss []int, rng *rand.Rand) (e ev) {
 	}
 	e["rerr"] = rerr
 	e["oob"] = sto.oob
+	e["padopen"] = sto.pad
 	progress.Add(1)
 
 	// web-seed jobs
